@@ -392,5 +392,8 @@ package gomatrixserverlib
 //@   requires a != nil && a.userIDQuerier != nil && evSafe(event)
 //@   ensures state-key: err == nil ==> event.StateKeyEquals("")
 //@   ensures first: err == nil ==> len(event.PrevEventIDs()) == 0
-//@   ensures sender: err == nil ==> a.userIDQuerier(a.roomID, event.SenderID())[1] == nil
+//@   ensures sender: err == nil ==> (a.userIDQuerier(a.roomID, event.SenderID())[1] == nil && a.userIDQuerier(a.roomID, event.SenderID())[0] != nil)
+//@   ensures version-rule: (err == nil && verKnown(string(event.Version()))) ==> called(CheckCreateEvent) && ret(CheckCreateEvent) == nil
+//@   ensures complete: (event.StateKeyEquals("") && len(event.PrevEventIDs()) == 0 && a.userIDQuerier(a.roomID, event.SenderID())[1] == nil && a.userIDQuerier(a.roomID, event.SenderID())[0] != nil && (!verKnown(string(event.Version())) || (called(CheckCreateEvent) && ret(CheckCreateEvent) == nil))) ==> err == nil
+//@   calls CheckCreateEvent args: event == old(event) && sender == *a.userIDQuerier(a.roomID, old(event).SenderID())[0] && ref(recv) == verImplRef(string(old(event).Version()))
 //@   assigns nothing
